@@ -1061,7 +1061,7 @@ def conc_schedules(c, steps, rng_seed):
 
     sp = c.get("sched") or {"kind": "rr", "quantum": 1}
     if isinstance(sp, list):
-        return [sp]
+        return [sp] * (5 if c.get("level") == "free" else 1)    # a free-running replay samples a few rounds
     n = len(c["threads"])
     if sp["kind"] == "free":
         return [[] for _ in range(sp.get("rounds", 3))]
@@ -1789,7 +1789,7 @@ def gen_conc_cases(chk):
         for D in ((1, 2, 4, 7) if thorough else (2, 5)):
             for slack in ((0, D, None) if thorough else (0, D)):
                 j += 1
-                ks = kinds if thorough else [kinds[j % 3]]
+                ks = kinds if thorough and N <= 3 else [kinds[j % 3], kinds[(j + 1) % 3]] if thorough else [kinds[j % 3]]
                 for kind in ks:
                     specs = [{"kind": "rr", "quantum": 1}, {"kind": "rr", "quantum": 2},
                              {"kind": "random", "seed": j, "count": 6 if thorough else 4}]
